@@ -168,8 +168,8 @@ int heap_for_alloc(const Op& op) {
 
 // all blocks of the model heaps of `prog` lose their owner (thread exit / mi_thread_done)
 static void orphan_thread_blocks(int prog) {
-  for (auto& kv : H.live) { Block* b = kv.second; if (b->heap >= 0 && H.heaps[b->heap].prog == prog) { b->orphan_kind = (H.heaps[b->heap].tag != 0 ? 2 : 1); b->heap = -1; } }
-  for (Block* b : H.limbo) if (b->heap >= 0 && H.heaps[b->heap].prog == prog) { b->orphan_kind = (H.heaps[b->heap].tag != 0 ? 2 : 1); b->heap = -1; }
+  for (auto& kv : H.live) { Block* b = kv.second; if (b->heap >= 0 && H.heaps[b->heap].prog == prog) { b->orphan_kind = (H.heaps[b->heap].tag != 0 ? 2 : 1); if (b->orphan_kind == 2) H.tag_orphans_ever++; b->heap = -1; } }
+  for (Block* b : H.limbo) if (b->heap >= 0 && H.heaps[b->heap].prog == prog) { b->orphan_kind = (H.heaps[b->heap].tag != 0 ? 2 : 1); if (b->orphan_kind == 2) H.tag_orphans_ever++; b->heap = -1; }
   for (auto& m : H.heaps) if (m.prog == prog) m.alive = false;
 }
 
@@ -536,7 +536,7 @@ static void do_heap_op(const Op& op) {
         resolve_backing();
         bool compatible = (m.tag == 0 && m.arena_slot < 0);
         mi_heap_delete(m.h);
-        for (auto& kv : H.live) if (kv.second->heap == mh) { kv.second->heap = (compatible ? T->backing : -1); if (!compatible) kv.second->orphan_kind = (m.tag != 0 ? 2 : 3); }
+        for (auto& kv : H.live) if (kv.second->heap == mh) { kv.second->heap = (compatible ? T->backing : -1); if (!compatible) { kv.second->orphan_kind = (m.tag != 0 ? 2 : 3); if (m.tag != 0) H.tag_orphans_ever++; } }
       }
       H.heaps[mh].alive = false; H.heaps[mh].h = nullptr; T->hslots[hs] = -1;
       if (T->deflt == mh) T->deflt = T->backing;
@@ -645,7 +645,8 @@ static void check_error_callbacks(const Op& op) {
   int bad = T->got_err_mask & ~allowed;
   if (bad) {
     size_t tag_orphans = 0; for (auto& kv : H.live) if (kv.second->orphan_kind == 2) tag_orphans++;
-    char ctx[120] = ""; if ((bad & EB_EFAULT) && tag_orphans) snprintf(ctx, sizeof ctx, " [%zu live blocks were orphaned by the deletion/termination of a tagged heap]", tag_orphans);
+    // (a page of such a heap stays abandoned, and is met by a later reclaim, even after its blocks were freed: the frees stay pending in it)
+    char ctx[160] = ""; if ((bad & EB_EFAULT) && H.tag_orphans_ever) snprintf(ctx, sizeof ctx, " [%zu live blocks were orphaned by the deletion/termination of a tagged heap (%zu of them still live)]", H.tag_orphans_ever, tag_orphans);
     sim_violation("error_callback", "operation %s reported error class 0x%x through the error callback (allowed 0x%x)%s; last message: %.200s", op_names[op.code], bad, allowed, ctx, g_last_out);
   }
   T->got_err_mask = 0; T->got_err_count = 0;
